@@ -228,6 +228,36 @@ func main() {
 	time.Sleep(*dur)
 	atomic.StoreInt32(&stop, 1)
 	wg.Wait()
+
+	// superseding: after a re-announcement that changes ONLY the scope part of an options template, lookups and
+	// data decoding must use the new definition (a "refresh" fast path that compares too little would keep the old one)
+	sup := net.ParseIP("192.0.2.77").To4()
+	optV9 := func(scopeID uint16) []byte {
+		body := []byte{0x02, 0x58, 0, 4, 0, 4, byte(scopeID >> 8), byte(scopeID), 0, 4, 0, 1, 0, 8}
+		set := append([]byte{0, 1, 0, byte(4 + len(body))}, body...)
+		msg := make([]byte, 20)
+		binary.BigEndian.PutUint16(msg[0:], 9)
+		return append(msg, set...)
+	}
+	netflow9.NewDecoder(sup, optV9(10)).Decode(mc9)
+	netflow9.NewDecoder(sup, optV9(14)).Decode(mc9)
+	if m, _ := netflow9.NewDecoder(sup, dataMsg(9, 600)).Decode(mc9); m == nil || len(m.DataSets) == 0 || m.DataSets[0][0].ID != 14 {
+		fail("netflow v9: data decoded after a re-announcement does not use the latest template definition")
+	}
+	optIPFIX := func(scopeID uint16) []byte {
+		body := []byte{0x02, 0x58, 0, 2, 0, 1, byte(scopeID >> 8), byte(scopeID), 0, 4, 0, 1, 0, 8}
+		set := append([]byte{0, 3, 0, byte(4 + len(body))}, body...)
+		msg := make([]byte, 16)
+		binary.BigEndian.PutUint16(msg[0:], 10)
+		binary.BigEndian.PutUint16(msg[2:], uint16(16+len(set)))
+		return append(msg, set...)
+	}
+	ipfix.NewDecoder(sup, optIPFIX(10)).Decode(mc)
+	ipfix.NewDecoder(sup, optIPFIX(14)).Decode(mc)
+	var trS ipfix.TemplateRecord
+	if err := rpc.Get(ipfix.RPCRequest{ID: 600, IP: sup}, &trS); err != nil || len(trS.ScopeFieldSpecifiers) != 1 || trS.ScopeFieldSpecifiers[0].ElementID != 14 {
+		fail("ipfix: a peer lookup after a re-announcement returns a superseded template")
+	}
 	if bad > 0 {
 		fmt.Printf("RACE-STRESS unsound=%d\n", bad)
 		os.Exit(3)
